@@ -56,6 +56,42 @@ def snapshot(top):
     return out
 
 
+def snapshot_full(top):
+    """{relative path: (kind, payload)} below top, links not followed; payload = link target / file bytes / None."""
+    out = {}
+    for dp, dns, fns in os.walk(top, followlinks=False):
+        for n in dns + fns:
+            p = os.path.join(dp, n)
+            rel = os.path.relpath(p, top)
+            if os.path.islink(p):
+                out[rel] = ("link", os.readlink(p))
+            elif os.path.isdir(p):
+                out[rel] = ("dir", None)
+            else:
+                try:
+                    with open(p, "rb") as fh:
+                        out[rel] = ("file", fh.read(65536))
+                except OSError as ex:
+                    out[rel] = ("file", "unreadable:%s" % type(ex).__name__)
+    return out
+
+
+@contextlib.contextmanager
+def quiet_stderr():
+    """Child processes started by the code under test (`cp` of RawFileProvider.write) inherit fd 2; their complaints
+    (e.g. destination is not a directory) must not end up in the check's output."""
+    sys.stderr.flush()
+    saved = os.dup(2)
+    devnull = os.open(os.devnull, os.O_WRONLY)
+    try:
+        os.dup2(devnull, 2)
+        yield
+    finally:
+        os.dup2(saved, 2)
+        os.close(saved)
+        os.close(devnull)
+
+
 def beneath(path, top):
     """Component-wise containment of two *real* (already resolved / normalised) absolute paths."""
     try:
